@@ -85,16 +85,16 @@ func flagTerm(tag string) string {
 }
 
 type method struct {
-	name, recv                       string
-	args                             [][2]string // name, Lean GoTy term
-	reqType                          string
-	passThrough                      bool // the single *Params argument is handed to the request call
-	assign                           [][2]string
-	call, hint, asserted, retType    string
-	ok                               bool
-	why                              string
-	argText                          [][2]string
-	skeleton                         []string // bodySkeleton: the statements of the body, in order
+	name, recv                    string
+	args                          [][2]string // name, Lean GoTy term
+	reqType                       string
+	passThrough                   bool // the single *Params argument is handed to the request call
+	assign                        [][2]string
+	call, hint, asserted, retType string
+	ok                            bool
+	why                           string
+	argText                       [][2]string
+	skeleton                      []string // bodySkeleton: the statements of the body, in order
 }
 
 func parseMethod(fd *ast.FuncDecl) method {
@@ -201,11 +201,68 @@ type wrapper struct {
 	fields    [][3]string // name, Lean GoTy term, tag
 }
 
+// constLit: package-level constant name -> the literal it stands for
+var constLit = map[string]string{}
+
+// litOf: the literal an expression denotes when that can be read off the syntax — a basic literal, a named
+// constant with such a value, a conversion T(x) or a parenthesised one of these; "" otherwise
+func litOf(e ast.Expr) string {
+	switch x := e.(type) {
+	case *ast.BasicLit:
+		return x.Value
+	case *ast.Ident:
+		return constLit[x.Name]
+	case *ast.ParenExpr:
+		return litOf(x.X)
+	case *ast.CallExpr:
+		if len(x.Args) == 1 {
+			if _, ok := x.Fun.(*ast.Ident); ok {
+				return litOf(x.Args[0])
+			}
+		}
+	}
+	return ""
+}
+
+// valText: the literal behind an expression when there is one, else its source text
+func valText(e ast.Expr) string {
+	if l := litOf(e); l != "" {
+		return l
+	}
+	return text(e)
+}
+
 func main() {
 	repo, out := os.Args[1], os.Args[2]
 	var methods []method
 	wrappers := map[string]*wrapper{}
 	crcOf := map[string]string{} // Go type name -> literal returned by its CRC() method
+	// package-level constants with a literal value (a constructor id may be returned through a named constant)
+	for _, fn := range []string{"methods_gen.go", "methods_special.go"} {
+		f, err := parser.ParseFile(fset, filepath.Join(repo, "telegram", fn), nil, 0)
+		if err != nil {
+			panic(err)
+		}
+		for _, d := range f.Decls {
+			gd, ok := d.(*ast.GenDecl)
+			if !ok || gd.Tok != token.CONST {
+				continue
+			}
+			for _, sp := range gd.Specs {
+				vs, ok := sp.(*ast.ValueSpec)
+				if !ok {
+					continue
+				}
+				for i, n := range vs.Names {
+					if i < len(vs.Values) {
+						if lit := litOf(vs.Values[i]); lit != "" {
+							constLit[n.Name] = lit
+						}
+					}
+				}
+			}
+		}
+	}
 	for _, fn := range []string{"methods_gen.go", "methods_special.go"} {
 		f, err := parser.ParseFile(fset, filepath.Join(repo, "telegram", fn), nil, 0)
 		if err != nil {
@@ -219,7 +276,7 @@ func main() {
 					rt := text(x.Recv.List[0].Type)
 					if x.Name.Name == "CRC" && x.Body != nil && len(x.Body.List) == 1 {
 						if r, ok := x.Body.List[0].(*ast.ReturnStmt); ok && len(r.Results) == 1 {
-							crcOf[strings.TrimPrefix(rt, "*")] = text(r.Results[0])
+							crcOf[strings.TrimPrefix(rt, "*")] = valText(r.Results[0])
 						}
 					}
 					if strings.HasSuffix(rt, "Client") && x.Body != nil {
@@ -238,7 +295,7 @@ func main() {
 						if len(x.Body.List) == 1 {
 							if r, ok := x.Body.List[0].(*ast.ReturnStmt); ok && len(r.Results) == 1 {
 								if x.Name.Name == "CRC" {
-									w.id = text(r.Results[0])
+									w.id = valText(r.Results[0])
 								} else {
 									w.flagIndex = "some " + text(r.Results[0])
 								}
